@@ -108,8 +108,42 @@ theorem allowElements_monotone (p : Policy) (hi : p.initialized = true) (names :
     · left; exact map_update_contains _ _ _ _ _ h
     · right; exact h
 
-/-- element names are case-insensitive (ASCII) -/
-theorem allowElements_case (p : Policy) (names : List Bytes) :
+theorem lowerAscii_ascii (n : Bytes) (h : n.all (· < 0x80) = true) : (lowerAscii n).all (· < 0x80) = true := by
+  simp only [lowerAscii, List.all_map, List.all_eq_true, Function.comp, decide_eq_true_eq] at h ⊢
+  intro c hc
+  have hc' := UInt8.lt_iff_toNat_lt.mp (h c hc)
+  apply UInt8.lt_iff_toNat_lt.mpr
+  unfold lowerByte
+  split
+  · rename_i hu
+    simp only [isUpper, Bool.and_eq_true, decide_eq_true_eq] at hu
+    have h2 := UInt8.le_iff_toNat_le.mp hu.2
+    simp [UInt8.toNat_add] at h2 hc' ⊢
+    omega
+  · exact hc'
+
+theorem lowerAscii_idem (n : Bytes) : lowerAscii (lowerAscii n) = lowerAscii n := by
+  simp only [lowerAscii, List.map_map]
+  congr 1
+  funext c
+  simp only [Function.comp, lowerByte]
+  split
+  · rename_i hu
+    split
+    · rename_i hu2
+      simp only [isUpper, Bool.and_eq_true, decide_eq_true_eq] at hu hu2
+      have h1 := UInt8.le_iff_toNat_le.mp hu.1
+      have h2 := UInt8.le_iff_toNat_le.mp hu.2
+      have h3 := UInt8.le_iff_toNat_le.mp hu2.2
+      simp [UInt8.toNat_add] at h1 h2 h3
+      omega
+    · rfl
+  · rename_i hu; simp [hu]
+
+/-- element names are case-insensitive: for ASCII names, registering the lower-cased spelling is
+    registering the name (non-ASCII names are lower-cased by Go's Unicode tables, regenerated into
+    `toLowerGo`; their idempotence is not proved here) -/
+theorem allowElements_case (p : Policy) (names : List Bytes) (hascii : ∀ n ∈ names, n.all (· < 0x80) = true) :
     applyOp d p (.allowElements (names.map lowerAscii)) = applyOp d p (.allowElements names) := by
   simp only [applyOp, BuilderOp.callsInit, ↓reduceIte, applyOpInit, toLowerName]
   generalize p.ensureInit = p
@@ -117,25 +151,13 @@ theorem allowElements_case (p : Policy) (names : List Bytes) :
   | nil => rfl
   | cons n ns ih =>
     simp only [List.map_cons, List.foldl_cons]
-    have : lowerAscii (lowerAscii n) = lowerAscii n := by
-      simp only [lowerAscii, List.map_map]
-      congr 1
-      funext c
-      simp only [Function.comp, lowerByte]
-      split
-      · rename_i hu
-        split
-        · rename_i hu2
-          simp only [isUpper, Bool.and_eq_true, decide_eq_true_eq] at hu hu2
-          have h1 := UInt8.le_iff_toNat_le.mp hu.1
-          have h2 := UInt8.le_iff_toNat_le.mp hu.2
-          have h3 := UInt8.le_iff_toNat_le.mp hu2.2
-          simp [UInt8.toNat_add] at h1 h2 h3
-          omega
-        · rfl
-      · rename_i hu; simp [hu]
-    rw [this]
-    exact ih _
+    have hn := hascii n (by simp)
+    have h1 : toLowerGo n = lowerAscii n := by simp [toLowerGo, hn]
+    have h2 : toLowerGo (lowerAscii n) = lowerAscii n := by
+      simp only [toLowerGo, lowerAscii_ascii n hn, ↓reduceIte]
+      exact lowerAscii_idem n
+    rw [h1, h2]
+    exact ih (fun x hx => hascii x (List.mem_cons_of_mem _ hx)) _
 
 example :
     let d : Bytes → Bytes → Bool := fun _ _ => false
